@@ -209,6 +209,8 @@ void run_case(const char* cname) {
             run("copy_and_convert", [&](J&, auto&, auto&) { gil::copy_and_convert_pixels(sv, dv); });
             run("generate", [&](J& x, auto&, auto&) { auto it = sv.begin(); long calls = 0; gil::generate_pixels(dv, [&]() { PD p(*it); ++it; ++calls; return p; }); x.num("ncalls", calls); });
             run("fill", [&](J& x, auto&, auto&) { PD val = PD(); if (w * h > 0) val = PD(sv(w - 1, h - 1)); x.raw("val", value_fields(val)); gil::fill_pixels(dv, val); });
+            // the fill value may be any compatible pixel: here of the source organisation's value type (other channel order / packing)
+            run("fill", [&](J& x, auto&, auto&) { using PS = typename VS::value_type; PS val = PS(); if (w * h > 0) val = PS(sv(w - 1, h - 1)); x.raw("val", value_fields(val)); gil::fill_pixels(dv, val); });
         } else if constexpr (G == 2) {
             run("for_each", [&](J& x, auto&, auto&) { std::vector<long long> calls;
                 gil::for_each_pixel(dv, [&](typename VD::reference p) { calls.push_back(first_pos(p, db.bytes.data())); if (integral) gil::static_for_each(p, inv_ch()); }); x.arr("calls", calls); });
